@@ -461,6 +461,9 @@ class GaussianEuclideanMetricSystem(EuclideanMetricSystem):
     def dh2_dpos(self, state: ChainState) -> ArrayLike:
         return state.pos
 
+    def dh_dpos(self, state: ChainState) -> ArrayLike:
+        return self.dh1_dpos(state) + self.dh2_dpos(state)
+
     def h2_flow(self, state: ChainState, dt: ScalarLike) -> None:
         omega = 1.0 / self.metric.eigval**0.5
         sin_omega_dt, cos_omega_dt = np.sin(omega * dt), np.cos(omega * dt)
